@@ -1,0 +1,290 @@
+//go:build verif
+
+package auth
+
+// Contracts for property C13 (a pulling client's copy always matches the user's current access: revocation).
+// Comment-only; read by /verif/engine. Trusted dispatch contracts: /verif/trusted/c13_auth.spec.
+
+//@ props C13
+
+// ---- the result map of RevokedCollectionChannels ----
+
+// add keeps, per channel, the maximum of the triggered-by values added for it; nothing else changes.
+//@ func RevokedChannels.add
+//@   safety on
+//@   requires revokedChannels != nil
+//@   modifies elems(revokedChannels)
+//@   ensures[keys]   forall k string :: {k in revokedChannels} (k in revokedChannels) <==> old(k in revokedChannels) || k == chanName
+//@   ensures[max]    revokedChannels[chanName] == ite(old(chanName in revokedChannels), max(old(revokedChannels[chanName]), triggeredBy), triggeredBy)
+//@   ensures[others] forall k string :: {revokedChannels[k]} k != chanName ==> revokedChannels[k] == old(revokedChannels[k])
+
+// ---- history bookkeeping (contract shared with C03, whose callers rebuildCollectionChannels / RebuildRoles rely on
+// the single requires and the write set) ----
+
+// calculateHistory only reads the grant sets; it rewrites the history map it is given (or a new one).
+// (It also rewrites the Entries arrays of the history values, which the modifies syntax cannot name.)
+//   written-end  every grant that was held (invalGrants) and is not held any more (newGrants) and that is still in the
+//                history ends with an entry closed at invalSeq: the revocation is on record for RevokedCollectionChannels.
+//   not-lost     such a grant is missing from the history only if PruneHistory reported it as pruned.
+//   held-none    a grant that is still held (or was not held) gets no new entry, and no key is invented.
+// NOT stated: the StartSeq of the new entry (= the grant's since-sequence) and "compaction keeps Entries[0].StartSeq":
+// append and the in-place compaction write into the backing arrays of the Entries slices, and nothing excludes that two
+// grants share a backing array (the single `requires` is fixed by the C03 callers), so these clauses are not provable.
+//@ props C03 C13
+//@ func Authenticator.calculateHistory
+//@   safety on
+//@   requires auth != nil
+//@   modifies elems(currentHistory), GrantHistorySequencePair.StartSeq
+//@   ensures[result]  result != nil && (currentHistory != nil ==> result == currentHistory) && (currentHistory == nil ==> !old(allocated(now(result))))
+//@   ensures[written-end]   forall g string :: {g in result} (g in invalGrants) && !(g in newGrants) && (g in result) ==> len(result[g].Entries) >= 1 && lastEnd(result[g]) == invalSeq
+//@   ensures[not-lost]      forall g string :: {g in invalGrants} (g in invalGrants) && !(g in newGrants) ==> (g in result) || elem(callres(PruneHistory, 1, 0), g)
+//@   ensures[held-none]     forall g string :: {g in result} !((g in invalGrants) && !(g in newGrants)) && (g in result) ==> old(g in currentHistory) && len(result[g].Entries) <= old(len(currentHistory[g].Entries))
+//@   loop 1 invariant[untouched] forall g string :: {g in #currentHistory} (g in #currentHistory) && !((g in #visited) && !(g in newGrants)) ==> old(g in currentHistory) && #currentHistory[g] == old(currentHistory[g])
+//@   loop 2 invariant[not-lost]  forall g string :: {g in invalGrants} (g in invalGrants) && !(g in newGrants) ==> (g in #currentHistory) || elem(callres(PruneHistory, 1, 0), g)
+//@   loop 2 invariant[held-none] forall g string :: {g in #currentHistory} !((g in invalGrants) && !(g in newGrants)) && (g in #currentHistory) ==> old(g in currentHistory) && len(#currentHistory[g].Entries) <= old(len(currentHistory[g].Entries))
+//@   loop 1 invariant[hist]    #currentHistory != nil && (currentHistory != nil ==> #currentHistory == currentHistory) && (currentHistory == nil ==> !old(allocated(now(#currentHistory))))
+//@   loop 1 invariant[written] forall g string :: {g in #visited} (g in #visited) && !(g in newGrants) ==> (g in #currentHistory) && len(#currentHistory[g].Entries) >= 1 && lastEnd(#currentHistory[g]) == invalSeq
+//@   loop 1 invariant[vis]     forall g string :: {g in #visited} (g in #visited) ==> (g in invalGrants)
+//@   loop 2 invariant[written] forall g string :: {g in #currentHistory} (g in invalGrants) && !(g in newGrants) && (g in #currentHistory) ==> len(#currentHistory[g].Entries) >= 1 && lastEnd(#currentHistory[g]) == invalSeq
+//@   loop 2 invariant[max]     maxHistoryEntriesPerGrant >= 1
+//@ props C13
+
+// PruneHistory drops the grants whose history was last updated longer ago than the window (wall-clock time: not
+// modelled); it never adds a key and never changes a value that stays; every dropped key is reported.
+//@ func TimedSetHistory.PruneHistory
+//@   safety on
+//@   modifies elems(timedSet)
+//@   ensures[shrink]   forall k string :: {k in timedSet} (k in timedSet) ==> old(k in timedSet)
+//@   ensures[values]   forall k string :: {timedSet[k]} (k in timedSet) ==> timedSet[k] == old(timedSet[k])
+//@   ensures[reported] forall k string :: {old(k in timedSet)} old(k in timedSet) && !(k in timedSet) ==> elem(result, k)
+//@   loop 1 invariant[shrink]   forall k string :: {k in timedSet} (k in timedSet) ==> old(k in timedSet)
+//@   loop 1 invariant[values]   forall k string :: {timedSet[k]} (k in timedSet) ==> timedSet[k] == old(timedSet[k])
+//@   loop 1 invariant[reported] forall k string :: {old(k in timedSet)} old(k in timedSet) && !(k in timedSet) ==> elem(prunedChannelHistory, k)
+
+// between 1 and 10 entries per grant
+//@ func CalculateMaxHistoryEntriesPerGrant
+//@   safety on
+//@   requires channelCount >= 0
+//@   ensures[range] 1 <= result && result <= 10
+
+// ---- channel / role history vocabulary ----
+
+//@ func roleImpl.CollectionChannelHistory
+//@   pure
+//@ func roleImpl.IsDeleted
+//@   pure
+
+// the channel history of a principal held in an interface value (closed world: *roleImpl and *userImpl)
+//@ pred prCollHist(p Principal, scope string, coll string) TimedSetHistory
+//@   is ite(dynType(p) == typeTag(*userImpl), unbox(p, *userImpl).roleImpl.CollectionChannelHistory(scope, coll), unbox(p, *roleImpl).CollectionChannelHistory(scope, coll))
+//@ pred prDeleted(p Principal) bool
+//@   is ite(dynType(p) == typeTag(*userImpl), unbox(p, *userImpl).roleImpl.Deleted, unbox(p, *roleImpl).Deleted)
+
+// The test RevokedCollectionChannels applies to a history entry: the grant ended after the sequence the client
+// is known to have seen, or exactly at the sequence of an interrupted revocation backfill.
+//@ pred entryHit(e GrantHistorySequencePair, check uint64, trig uint64) bool
+//@   is e.EndSeq > check || e.EndSeq == trig
+// some entry of the grant history passes the test
+//@ pred histHit(h GrantHistory, check uint64, trig uint64) bool
+//@   is exists i int :: {h.Entries[i]} 0 <= i && i < len(h.Entries) && entryHit(h.Entries[i], check, trig)
+// the end sequence of the most recent entry
+//@ pred lastEnd(h GrantHistory) uint64
+//@   is h.Entries[len(h.Entries)-1].EndSeq
+
+// channel c was lost by principal p (history of the collection) in the window, and the user cannot see it now
+//@ pred lostBy(p Principal, scope string, coll string, c string, check uint64, trig uint64, acc channels.TimedSet) bool
+//@   is (c in prCollHist(p, scope, coll)) && histHit(prCollHist(p, scope, coll)[c], check, trig) && !(c in acc)
+
+// ---- RevokedCollectionChannels ----
+
+// revokeChannelHistoryProcessing (closure): walks the channel history of one principal and records every channel
+// that was lost in the window and is not accessible now, with the end of its most recent grant period.
+//@ func userImpl.RevokedCollectionChannels$1
+//@   safety on
+//@   requires prKnown(princ) && combinedRevokedChannels != nil
+//@   modifies elems(combinedRevokedChannels)
+//@   ensures[guarded] forall c string :: {c in combinedRevokedChannels} (c in combinedRevokedChannels) ==> old(c in combinedRevokedChannels) || lostBy(princ, scope, collection, c, checkSeq, triggeredBy, accessibleChannels)
+//@   ensures[kept]    forall c string :: {c in combinedRevokedChannels} old(c in combinedRevokedChannels) ==> (c in combinedRevokedChannels)
+//@   ensures[grows]   forall c string :: {combinedRevokedChannels[c]} old(c in combinedRevokedChannels) ==> combinedRevokedChannels[c] >= old(combinedRevokedChannels[c])
+//@   ensures[value]   forall c string :: {combinedRevokedChannels[c]} (c in combinedRevokedChannels) ==> (old(c in combinedRevokedChannels) && combinedRevokedChannels[c] == old(combinedRevokedChannels[c])) || (lostBy(princ, scope, collection, c, checkSeq, triggeredBy, accessibleChannels) && combinedRevokedChannels[c] == lastEnd(prCollHist(princ, scope, collection)[c]))
+//@   ensures[complete] forall c string :: {c in prCollHist(princ, scope, collection)} {c in combinedRevokedChannels} lostBy(princ, scope, collection, c, checkSeq, triggeredBy, accessibleChannels) ==> (c in combinedRevokedChannels) && combinedRevokedChannels[c] >= lastEnd(prCollHist(princ, scope, collection)[c])
+//@   loop 1 invariant[complete] forall c string :: {c in #visited} (c in #visited) && lostBy(princ, scope, collection, c, checkSeq, triggeredBy, accessibleChannels) ==> (c in combinedRevokedChannels) && combinedRevokedChannels[c] >= lastEnd(prCollHist(princ, scope, collection)[c])
+//@   loop 2 invariant[complete] forall c string :: {c in #visited} (c in #visited) && c != chanName && lostBy(princ, scope, collection, c, checkSeq, triggeredBy, accessibleChannels) ==> (c in combinedRevokedChannels) && combinedRevokedChannels[c] >= lastEnd(prCollHist(princ, scope, collection)[c])
+//@   loop 2 invariant[current]  (exists j int :: {history.Entries[j]} 0 <= j && j <= #index && entryHit(history.Entries[j], checkSeq, triggeredBy)) ==> (chanName in combinedRevokedChannels) && combinedRevokedChannels[chanName] >= lastEnd(history)
+//@   loop 1 invariant[guarded] forall c string :: {c in combinedRevokedChannels} (c in combinedRevokedChannels) ==> old(c in combinedRevokedChannels) || lostBy(princ, scope, collection, c, checkSeq, triggeredBy, accessibleChannels)
+//@   loop 1 invariant[kept]    forall c string :: {c in combinedRevokedChannels} old(c in combinedRevokedChannels) ==> (c in combinedRevokedChannels)
+//@   loop 1 invariant[grows]   forall c string :: {combinedRevokedChannels[c]} old(c in combinedRevokedChannels) ==> combinedRevokedChannels[c] >= old(combinedRevokedChannels[c])
+//@   loop 1 invariant[value]   forall c string :: {combinedRevokedChannels[c]} (c in combinedRevokedChannels) ==> (old(c in combinedRevokedChannels) && combinedRevokedChannels[c] == old(combinedRevokedChannels[c])) || (lostBy(princ, scope, collection, c, checkSeq, triggeredBy, accessibleChannels) && combinedRevokedChannels[c] == lastEnd(prCollHist(princ, scope, collection)[c]))
+//@   loop 2 invariant[cur]     (chanName in prCollHist(princ, scope, collection)) && history == prCollHist(princ, scope, collection)[chanName] && !(chanName in accessibleChannels) && #index < len(history.Entries)
+//@   loop 2 invariant[guarded] forall c string :: {c in combinedRevokedChannels} (c in combinedRevokedChannels) ==> old(c in combinedRevokedChannels) || lostBy(princ, scope, collection, c, checkSeq, triggeredBy, accessibleChannels)
+//@   loop 2 invariant[kept]    forall c string :: {c in combinedRevokedChannels} old(c in combinedRevokedChannels) ==> (c in combinedRevokedChannels)
+//@   loop 2 invariant[grows]   forall c string :: {combinedRevokedChannels[c]} old(c in combinedRevokedChannels) ==> combinedRevokedChannels[c] >= old(combinedRevokedChannels[c])
+//@   loop 2 invariant[value]   forall c string :: {combinedRevokedChannels[c]} (c in combinedRevokedChannels) ==> (old(c in combinedRevokedChannels) && combinedRevokedChannels[c] == old(combinedRevokedChannels[c])) || (lostBy(princ, scope, collection, c, checkSeq, triggeredBy, accessibleChannels) && combinedRevokedChannels[c] == lastEnd(prCollHist(princ, scope, collection)[c]))
+
+// ---- role loading (TRUSTED) ----
+
+// GetRoleIncDeleted reads the role document from the metadata store (datastore.Update with a callback: out of
+// reach of the verifier) and unmarshals it into a new roleImpl. Assumed, from auth/auth.go:152-224:
+// (1) on error no role is returned (getPrincipal returns (nil, err), the type assertion of a nil interface gives nil);
+// (2) a returned role is a non-nil *roleImpl (the factory passed to getPrincipal is `&roleImpl{docID: docID}`);
+// (3) nothing reachable from existing objects is written: the callback only fills the new object (it may rebuild
+//     and re-save the role's channels in the bucket, which no contract of C13 observes);
+// (4) the object is named by c13StoredRole (idealisation, see /verif/trusted/c13_auth.spec).
+//@ func Authenticator.GetRoleIncDeleted
+//@   trusted
+//@   requires auth != nil
+//@   ensures[err]    !isNilErr(result1) ==> isNilErr(result0)
+//@   ensures[role]   !isNilErr(result0) ==> dynType(result0) == typeTag(*roleImpl) && unbox(result0, *roleImpl) != nil && unbox(result0, *roleImpl) == c13StoredRole(auth, name)
+//@   ensures[loads]  c13RoleLoads(auth, name) <==> !isNilErr(result0)
+
+// The list GetRolesIncDeleted returns: the active roles GetRoles resolves followed by the user's deleted roles.
+//@ fn userRolesIncDel(u *userImpl) []Role
+
+// GetRolesIncDeleted = GetRoles() ++ user.deletedRoles (auth/user.go:604). GetRoles is itself trusted (auth/zz_verif_c02.go):
+// it fills user.roles / user.deletedRoles from GetRoleIncDeleted results, skipping nil ones, and says nothing about
+// deletedRoles, so this contract cannot be proved from it. Assumed: (1) same error as GetRoles; (2) the list starts
+// with the active roles userRoles(user), in order; (3) every element (active or deleted) is a non-nil *roleImpl
+// (both lists are only ever appended to with non-nil GetRoleIncDeleted results, auth/user.go:587-595);
+// (4) only the two cache fields are written (append may also write the spare capacity of user.roles' backing array,
+// beyond its length, which no reader sees).
+//@ func userImpl.GetRolesIncDeleted
+//@   trusted
+//@   requires user != nil
+//@   modifies user.roles, user.deletedRoles
+//@   ensures[err]    result1 == rolesLoadErr(user)
+//@   ensures[list]   isNilErr(result1) ==> result0 == userRolesIncDel(user) && len(userRolesIncDel(user)) >= len(userRoles(user))
+//@   ensures[active] isNilErr(result1) ==> (forall i int :: {userRolesIncDel(user)[i]} 0 <= i && i < len(userRoles(user)) ==> userRolesIncDel(user)[i] == userRoles(user)[i])
+//@   ensures[known]  isNilErr(result1) ==> (forall i int :: {userRolesIncDel(user)[i]} 0 <= i && i < len(userRolesIncDel(user)) ==> dynType(userRolesIncDel(user)[i]) == typeTag(*roleImpl) && unbox(userRolesIncDel(user)[i], *roleImpl) != nil)
+
+// ---- RevokedCollectionChannels: vocabulary ----
+
+// the sequence the function diffs against (auth/user.go:298-305)
+//@ pred ckSeq(since uint64, lowSeq uint64, trig uint64) uint64
+//@   is ite(lowSeq > 0, lowSeq, ite(trig > 0, trig, since))
+
+// role n was held by the user and lost in the window (and is not held now)
+//@ pred revokedRole(u *userImpl, n string, check uint64, trig uint64) bool
+//@   is (n in u.RoleHistory_) && !(n in u.RoleNames()) && histHit(u.RoleHistory_[n], check, trig)
+
+// c is a current channel of the (not deleted) role r / c was lost by role r in the window
+//@ pred roleCur(r *roleImpl, scope string, coll string, c string) bool
+//@   is !r.Deleted && (c in r.CollectionChannels(scope, coll))
+//@ pred roleLost(r *roleImpl, scope string, coll string, c string, check uint64, trig uint64) bool
+//@   is (c in r.CollectionChannelHistory(scope, coll)) && histHit(r.CollectionChannelHistory(scope, coll)[c], check, trig)
+
+// the revoked role n has been processed into m: every channel it gives, or gave and lost in the window, that the user
+// cannot see now is in m
+//@ pred revDone(u *userImpl, scope string, coll string, check uint64, trig uint64, acc channels.TimedSet, m RevokedChannels, n string) bool
+//@   is forall c string :: {c in m} !(c in acc) && (roleCur(c13StoredRole(u.auth, n), scope, coll, c) || roleLost(c13StoredRole(u.auth, n), scope, coll, c, check, trig)) ==> (c in m)
+
+// principal p has been processed into m
+//@ pred lostDone(p Principal, scope string, coll string, check uint64, trig uint64, acc channels.TimedSet, m RevokedChannels) bool
+//@   is forall c string :: {c in m} lostBy(p, scope, coll, c, check, trig, acc) ==> (c in m) && m[c] >= lastEnd(prCollHist(p, scope, coll)[c])
+
+// the map of revoked roles built by the first loop has every role lost in the window
+//@ pred rtrComplete(u *userImpl, check uint64, trig uint64, m map[string]uint64) bool
+//@   is forall n string :: {n in u.RoleHistory_} revokedRole(u, n, check, trig) ==> (n in m)
+
+// RevokedCollectionChannels: the channels to revoke for a client that resumes from (since, lowSeq, triggeredBy).
+//   no-revoke-visible   "no revocation is sent for a document the user can still see" (channel level): no channel of the
+//                       result is in the user's effective channel set (own valid channels or a channel given by a role held).
+//   user-lost, roles-lost, revoked-roles   "never silently dropped" (channel level): every channel that the user, a role
+//                       the user holds (active or deleted) or a role the user lost in the window gave and that the
+//                       user cannot see any more is in the result, with a triggered-by value at least the relevant
+//                       revocation sequence. ASSUMPTION recorded with revoked-roles: the role document can be loaded
+//                       (c13RoleLoads); when GetRoleIncDeleted fails the code logs a warning and continues, so the
+//                       channels of that role are silently NOT revoked (auth/user.go:352-356).
+//@ func userImpl.RevokedCollectionChannels
+//@   safety on
+//@   requires user != nil && user.auth != nil
+//@   modifies user.roles, user.deletedRoles
+//@   ensures[err]        result1 == rolesLoadErr(user) && (isNilErr(result1) <==> result0 != nil)
+//@   ensures[new]        isNilErr(result1) ==> !old(allocated(now(result0)))
+//@   ensures[accessible] isNilErr(result1) ==> (forall c string :: {c in accessibleChannels} (c in accessibleChannels) <==> (c in user.roleImpl.CollectionChannels(scope, collection)) || (exists i int :: {userRoles(user)[i]} 0 <= i && i < len(userRoles(user)) && uRoleGives(user, scope, collection, i, c)))
+//@   ensures[guarded]    isNilErr(result1) ==> (forall c string :: {c in result0} (c in result0) ==> !(c in accessibleChannels))
+//@   ensures[no-revoke-visible] isNilErr(result1) ==> (forall c string :: {c in result0} (c in result0) ==> !(c in user.roleImpl.CollectionChannels(scope, collection)) && !(exists i int :: {userRoles(user)[i]} 0 <= i && i < len(userRoles(user)) && uRoleGives(user, scope, collection, i, c)))
+//@   ensures[user-lost]     isNilErr(result1) ==> lostDone(box(user), scope, collection, ckSeq(since, lowSeq, triggeredBy), triggeredBy, accessibleChannels, result0)
+//@   ensures[roles-lost]    isNilErr(result1) ==> (forall i int :: {userRolesIncDel(user)[i]} 0 <= i && i < len(userRolesIncDel(user)) ==> lostDone(userRolesIncDel(user)[i], scope, collection, ckSeq(since, lowSeq, triggeredBy), triggeredBy, accessibleChannels, result0))
+//@   ensures[revoked-roles] isNilErr(result1) ==> (forall n string :: {n in user.RoleHistory_} revokedRole(user, n, ckSeq(since, lowSeq, triggeredBy), triggeredBy) && c13RoleLoads(user.auth, n) ==> revDone(user, scope, collection, ckSeq(since, lowSeq, triggeredBy), triggeredBy, accessibleChannels, result0, n))
+//@   loop 1 invariant[ck]       checkSeq == ckSeq(since, lowSeq, triggeredBy) && rolesToRevoke != nil && !old(allocated(now(rolesToRevoke)))
+//@   loop 1 invariant[complete] forall n string :: {n in #visited} (n in #visited) && revokedRole(user, n, ckSeq(since, lowSeq, triggeredBy), triggeredBy) ==> (n in rolesToRevoke)
+//@   loop 2 invariant[ck]       checkSeq == ckSeq(since, lowSeq, triggeredBy) && rolesToRevoke != nil && !old(allocated(now(rolesToRevoke)))
+//@   loop 2 invariant[complete] forall n string :: {n in #visited1} (n in #visited1) && n != roleName && revokedRole(user, n, ckSeq(since, lowSeq, triggeredBy), triggeredBy) ==> (n in rolesToRevoke)
+//@   loop 2 invariant[cur]      (roleName in user.RoleHistory_) && history == user.RoleHistory_[roleName] && !(roleName in user.RoleNames()) && #index < len(history.Entries)
+//@   loop 2 invariant[current]  (exists j int :: {history.Entries[j]} 0 <= j && j <= #index && entryHit(history.Entries[j], ckSeq(since, lowSeq, triggeredBy), triggeredBy)) ==> (roleName in rolesToRevoke)
+//@   loop 3 invariant[ck]       checkSeq == ckSeq(since, lowSeq, triggeredBy) && rolesToRevoke != nil && combinedRevokedChannels != nil && combinedRevokedChannels != rolesToRevoke && !old(allocated(now(combinedRevokedChannels)))
+//@   loop 3 invariant[rtr]      rtrComplete(user, ckSeq(since, lowSeq, triggeredBy), triggeredBy, rolesToRevoke)
+//@   loop 3 invariant[guarded]  forall c string :: {c in combinedRevokedChannels} (c in combinedRevokedChannels) ==> !(c in accessibleChannels)
+//@   loop 3 invariant[done]     forall n string :: {n in #visited} (n in #visited) && c13RoleLoads(user.auth, n) ==> revDone(user, scope, collection, ckSeq(since, lowSeq, triggeredBy), triggeredBy, accessibleChannels, combinedRevokedChannels, n)
+//@   loop 4 invariant[ck]       checkSeq == ckSeq(since, lowSeq, triggeredBy) && rolesToRevoke != nil && combinedRevokedChannels != nil && combinedRevokedChannels != rolesToRevoke && !old(allocated(now(combinedRevokedChannels)))
+//@   loop 4 invariant[rtr]      rtrComplete(user, ckSeq(since, lowSeq, triggeredBy), triggeredBy, rolesToRevoke)
+//@   loop 4 invariant[guarded]  forall c string :: {c in combinedRevokedChannels} (c in combinedRevokedChannels) ==> !(c in accessibleChannels)
+//@   loop 4 invariant[done]     forall n string :: {n in #visited3} (n in #visited3) && n != roleName && c13RoleLoads(user.auth, n) ==> revDone(user, scope, collection, ckSeq(since, lowSeq, triggeredBy), triggeredBy, accessibleChannels, combinedRevokedChannels, n)
+//@   loop 4 invariant[idx]      #index < len(callres(AllKeys, 1, 0))
+//@   loop 4 invariant[cur]      forall j int :: {callres(AllKeys, 1, 0)[j]} 0 <= j && j <= #index && !(callres(AllKeys, 1, 0)[j] in accessibleChannels) ==> (callres(AllKeys, 1, 0)[j] in combinedRevokedChannels)
+//@   loop 5 invariant[ck]       checkSeq == ckSeq(since, lowSeq, triggeredBy) && rolesToRevoke != nil && combinedRevokedChannels != nil && combinedRevokedChannels != rolesToRevoke && !old(allocated(now(combinedRevokedChannels)))
+//@   loop 5 invariant[rtr]      rtrComplete(user, ckSeq(since, lowSeq, triggeredBy), triggeredBy, rolesToRevoke)
+//@   loop 5 invariant[guarded]  forall c string :: {c in combinedRevokedChannels} (c in combinedRevokedChannels) ==> !(c in accessibleChannels)
+//@   loop 5 invariant[done]     forall n string :: {n in #visited3} (n in #visited3) && n != roleName && c13RoleLoads(user.auth, n) ==> revDone(user, scope, collection, ckSeq(since, lowSeq, triggeredBy), triggeredBy, accessibleChannels, combinedRevokedChannels, n)
+//@   loop 5 invariant[cur]      forall c string :: {c in combinedRevokedChannels} !(c in accessibleChannels) && roleCur(c13StoredRole(user.auth, roleName), scope, collection, c) ==> (c in combinedRevokedChannels)
+//@   loop 5 invariant[hist]     forall c string :: {c in #visited} (c in #visited) && !(c in accessibleChannels) && roleLost(c13StoredRole(user.auth, roleName), scope, collection, c, ckSeq(since, lowSeq, triggeredBy), triggeredBy) ==> (c in combinedRevokedChannels)
+//@   loop 6 invariant[ck]       checkSeq == ckSeq(since, lowSeq, triggeredBy) && rolesToRevoke != nil && combinedRevokedChannels != nil && combinedRevokedChannels != rolesToRevoke && !old(allocated(now(combinedRevokedChannels)))
+//@   loop 6 invariant[rtr]      rtrComplete(user, ckSeq(since, lowSeq, triggeredBy), triggeredBy, rolesToRevoke)
+//@   loop 6 invariant[guarded]  forall c string :: {c in combinedRevokedChannels} (c in combinedRevokedChannels) ==> !(c in accessibleChannels)
+//@   loop 6 invariant[done]     forall n string :: {n in #visited3} (n in #visited3) && n != roleName && c13RoleLoads(user.auth, n) ==> revDone(user, scope, collection, ckSeq(since, lowSeq, triggeredBy), triggeredBy, accessibleChannels, combinedRevokedChannels, n)
+//@   loop 6 invariant[cur]      forall c string :: {c in combinedRevokedChannels} !(c in accessibleChannels) && roleCur(c13StoredRole(user.auth, roleName), scope, collection, c) ==> (c in combinedRevokedChannels)
+//@   loop 6 invariant[hist]     forall c string :: {c in #visited5} (c in #visited5) && c != chanName && !(c in accessibleChannels) && roleLost(c13StoredRole(user.auth, roleName), scope, collection, c, ckSeq(since, lowSeq, triggeredBy), triggeredBy) ==> (c in combinedRevokedChannels)
+// (the local `history` of this loop cannot be named: the engine resolves the name to the first variable called history)
+//@   loop 6 invariant[here]     (chanName in c13StoredRole(user.auth, roleName).CollectionChannelHistory(scope, collection)) && !(chanName in accessibleChannels) && #index < len(c13StoredRole(user.auth, roleName).CollectionChannelHistory(scope, collection)[chanName].Entries)
+//@   loop 6 invariant[current]  (exists j int :: {c13StoredRole(user.auth, roleName).CollectionChannelHistory(scope, collection)[chanName].Entries[j]} 0 <= j && j <= #index && entryHit(c13StoredRole(user.auth, roleName).CollectionChannelHistory(scope, collection)[chanName].Entries[j], ckSeq(since, lowSeq, triggeredBy), triggeredBy)) ==> (chanName in combinedRevokedChannels)
+//@   loop 7 invariant[ck]       checkSeq == ckSeq(since, lowSeq, triggeredBy) && combinedRevokedChannels != nil && !old(allocated(now(combinedRevokedChannels)))
+//@   loop 7 invariant[guarded]  forall c string :: {c in combinedRevokedChannels} (c in combinedRevokedChannels) ==> !(c in accessibleChannels)
+//@   loop 7 invariant[roles]    roles == userRolesIncDel(user) && isNilErr(rolesLoadErr(user)) && (forall i int :: {userRolesIncDel(user)[i]} 0 <= i && i < len(userRolesIncDel(user)) ==> dynType(userRolesIncDel(user)[i]) == typeTag(*roleImpl) && unbox(userRolesIncDel(user)[i], *roleImpl) != nil)
+//@   loop 7 invariant[revoked]  forall n string :: {n in user.RoleHistory_} revokedRole(user, n, ckSeq(since, lowSeq, triggeredBy), triggeredBy) && c13RoleLoads(user.auth, n) ==> revDone(user, scope, collection, ckSeq(since, lowSeq, triggeredBy), triggeredBy, accessibleChannels, combinedRevokedChannels, n)
+//@   loop 7 invariant[lost]     forall i int :: {userRolesIncDel(user)[i]} 0 <= i && i <= #index ==> lostDone(userRolesIncDel(user)[i], scope, collection, ckSeq(since, lowSeq, triggeredBy), triggeredBy, accessibleChannels, combinedRevokedChannels)
+
+// ---- CollectionChannelGrantedPeriods: periods in which the user could see a channel ----
+
+// compareAndAddPair (closure): appends the intersection [max(starts), min(ends)) of two periods when it is not empty;
+// what was collected before is kept ("every returned pair has Start < End for the intersected ones").
+//@ func userImpl.CollectionChannelGrantedPeriods$1
+//@   safety on
+//@   modifies resultPairs, elems(resultPairs)
+//@   ensures[prefix] len(resultPairs) >= old(len(resultPairs)) && (forall i int :: {resultPairs[i]} 0 <= i && i < old(len(resultPairs)) ==> resultPairs[i] == old(resultPairs[i]))
+//@   ensures[skip]   !(max(startSeq1, startSeq2) < min(endSeq1, endSeq2)) ==> len(resultPairs) == old(len(resultPairs))
+//@   ensures[added]  max(startSeq1, startSeq2) < min(endSeq1, endSeq2) ==> len(resultPairs) == old(len(resultPairs)) + 1 && resultPairs[old(len(resultPairs))].StartSeq == max(startSeq1, startSeq2) && resultPairs[old(len(resultPairs))].EndSeq == min(endSeq1, endSeq2) && resultPairs[old(len(resultPairs))].StartSeq < resultPairs[old(len(resultPairs))].EndSeq
+
+// number of closed periods in the user's own history of the channel
+//@ pred ownN(u *userImpl, scope string, coll string, ch string) int
+//@   is ite(ch in u.roleImpl.CollectionChannelHistory(scope, coll), len(u.roleImpl.CollectionChannelHistory(scope, coll)[ch].Entries), 0)
+
+// what the result starts with: the user's own closed periods, then the open period of a current own grant
+//@ pred ownCovered(u *userImpl, scope string, coll string, ch string, ps []GrantHistorySequencePair) bool
+//@   is len(ps) >= ownN(u, scope, coll, ch) &&
+//@      (forall j int :: {ps[j]} 0 <= j && j < ownN(u, scope, coll, ch) ==> ps[j] == old(u.roleImpl.CollectionChannelHistory(scope, coll)[ch].Entries[j])) &&
+//@      ((ch in u.roleImpl.CollectionChannels(scope, coll)) ==> len(ps) > ownN(u, scope, coll, ch) && ps[ownN(u, scope, coll, ch)].StartSeq == u.roleImpl.CollectionChannels(scope, coll)[ch].Sequence && ps[ownN(u, scope, coll, ch)].EndSeq == math.MaxUint64)
+
+// CollectionChannelGrantedPeriods ("covers", the part proved): the result lists every closed period of the user's own
+// channel history and, when the user holds the channel directly now, the open period since that grant; the periods
+// contributed by roles come after them (each appended by compareAndAddPair or as an open period).
+// NOT proved here: that the role-derived periods cover every period in which a held role gave the channel (loops 2-9);
+// see the report.
+//@ func userImpl.CollectionChannelGrantedPeriods
+//@   safety on
+//@   requires user != nil && user.auth != nil
+//@   modifies user.roles, user.deletedRoles, elems(user.roleImpl.CollectionChannelHistory(scope, collection)[chanName].Entries)
+//@   ensures[err]  !isNilErr(result1) ==> result0 == nil
+//@   ensures[own]  isNilErr(result1) ==> ownCovered(user, scope, collection, chanName, result0)
+//@   loop 1 invariant[own] len(resultPairs) >= ownN(user, scope, collection, chanName) && (forall j int :: {resultPairs[j]} 0 <= j && j < ownN(user, scope, collection, chanName) ==> resultPairs[j] == old(user.roleImpl.CollectionChannelHistory(scope, collection)[chanName].Entries[j]))
+//@   loop 1 invariant[cur] ((chanName in #visited) ==> len(resultPairs) == ownN(user, scope, collection, chanName) + 1 && resultPairs[ownN(user, scope, collection, chanName)].StartSeq == user.roleImpl.CollectionChannels(scope, collection)[chanName].Sequence && resultPairs[ownN(user, scope, collection, chanName)].EndSeq == math.MaxUint64) && (!(chanName in #visited) ==> len(resultPairs) == ownN(user, scope, collection, chanName))
+//@   loop 2 invariant[own] ownCovered(user, scope, collection, chanName, resultPairs)
+//@   loop 2 invariant[roles] roles == userRoles(user) && rolesWF(user) && #index < len(roles)
+//@   loop 3 invariant[own] ownCovered(user, scope, collection, chanName, resultPairs)
+//@   loop 3 invariant[roles] roles == userRoles(user) && rolesWF(user) && #index2 < len(roles)
+//@   loop 4 invariant[own] ownCovered(user, scope, collection, chanName, resultPairs)
+//@   loop 4 invariant[roles] roles == userRoles(user) && rolesWF(user) && #index2 < len(roles)
+//@   loop 5 invariant[own] ownCovered(user, scope, collection, chanName, resultPairs)
+//@   loop 6 invariant[own] ownCovered(user, scope, collection, chanName, resultPairs)
+//@   loop 7 invariant[own] ownCovered(user, scope, collection, chanName, resultPairs)
+//@   loop 8 invariant[own] ownCovered(user, scope, collection, chanName, resultPairs)
+//@   loop 9 invariant[own] ownCovered(user, scope, collection, chanName, resultPairs)
